@@ -36,8 +36,8 @@ ASSUMPTIONS = [
   'avoid-sets contain ASCII identifiers only ([A-Za-z_][A-Za-z0-9_]*), as in every caller: existing table ids '
   '(incl. _grist_* tables), existing column ids, "id"',
   'keyword = keyword.iskeyword (hard keywords); soft keywords such as match/case are legal identifiers',
-  'engine part: a bundle rejected by the engine is counted (class engine:rejected:<Exc>) but is not a C21 '
-  'violation as long as the metadata still satisfies the predicate; exceptions raised inside identifiers.py are',
+  'engine part: every generated bundle is well-formed apart from the name, so a rejected bundle means no id '
+  'could be chosen for the requested name and is reported (C21:engine:rejected-<Exc>)',
 ]
 BUDGET = {'quick': dict(examples=6000, shards=8, max_seconds=60),
           'thorough': dict(examples=240000, shards=16, max_seconds=600)}
@@ -382,8 +382,11 @@ def run_engine(case):
       r = d.apply([['BulkUpdateRecord', '_grist_Tables_column', [i for i, _ in pick], {'colId': reqs}]])
       if r.ok:
         now = dict((i, c) for i, c in col_ids(tref))
-        for (cref, cid), req in zip(pick, reqs):
-          others = (before_all - set([cid.lower()])) | set(q.lower() for q in reqs if q is not req)
+        for j, ((cref, cid), req) in enumerate(zip(pick, reqs)):
+          # "used" = ids of the table before the bundle (except its own), the other requests of the bundle and
+          # the ids the other renamed columns ended up with
+          others = (before_all - set([cid.lower()])) | set(q.lower() for k, q in enumerate(reqs) if k != j)
+          others |= set(now[i].lower() for k, (i, _) in enumerate(pick) if k != j and now.get(i))
           if req != cid:
             nontrivial |= expect(now.get(cref), req, others, False, what)
     else:
@@ -397,8 +400,9 @@ def run_engine(case):
       r = d.apply([['BulkUpdateRecord', '_grist_Tables', [i for i, _ in pick], {'tableId': reqs}]])
       if r.ok:
         now = dict(user_tables())
-        for (ref, old), req in zip(pick, reqs):
-          others = (all_tables_lower - set([old.lower()])) | set(q.lower() for q in reqs if q is not req)
+        for j, ((ref, old), req) in enumerate(zip(pick, reqs)):
+          others = (all_tables_lower - set([old.lower()])) | set(q.lower() for k, q in enumerate(reqs) if k != j)
+          others |= set(now[i].lower() for k, (i, _) in enumerate(pick) if k != j and now.get(i))
           if req != old:
             nontrivial |= expect(now.get(ref), req, others, True, what)
     out.cls('engine:' + what.split(' ')[0])
@@ -411,7 +415,11 @@ def run_engine(case):
         out.fail('C21:engine:identifiers-raised-' + name_e, '%s raised %r inside identifiers.py' % (what, r.error),
                  {'action': r.uas})
       else:
+        # every generated bundle is a well-formed request whose only unusual part is the name, and no id can be
+        # chosen for a rejected request; on the unchanged tree no such rejection occurs
         out.cls('engine:rejected:' + name_e)
+        out.fail('C21:engine:rejected-' + name_e, '%s with a generated name was rejected: %r' % (what, r.error),
+                 {'action': r.uas})
     check_metadata(d, out, what)
 
   out['concrete'] = d.concrete_history()[1:]
@@ -441,15 +449,28 @@ def name_strategy():
     st.text(alphabet='_0123456789 -', max_size=4))
 
 
-def strategy(tier):
+COLLIDE = ['foo', 'Foo', 'FOO', ' foo', 'a', 'A', '_a', 'x y', 'x_y', 'X_Y', '', None, 'class', 'Class', 'foo2', 'id']
+
+
+def parts():
+  """(pure-case strategy, engine-case strategy)"""
   name = name_strategy()
+  colliding = st.lists(st.sampled_from(COLLIDE), min_size=2, max_size=6)   # small pool: collisions within a batch
   avoid_el = st.fixed_dictionaries({'k': st.sampled_from([0, 1, 1, 1]), 'w': st.integers(0, len(POOL) - 1),
                                     'n': st.integers(0, 7), 'c': st.integers(0, 3), 's': st.integers(0, 7)})
-  pure = st.fixed_dictionaries({'kind': st.just(0), 'names': st.lists(name, min_size=1, max_size=8),
+  pure = st.fixed_dictionaries({'kind': st.just(0),
+                                'names': st.one_of(st.lists(name, min_size=1, max_size=8),
+                                                   st.lists(name, min_size=1, max_size=8), colliding),
                                 'avoid': st.lists(avoid_el, max_size=10)})
-  op = st.fixed_dictionaries({'o': st.integers(0, 7), 'name': name, 'names': st.lists(name, max_size=5),
+  op = st.fixed_dictionaries({'o': st.integers(0, 7), 'name': st.one_of(name, name, st.sampled_from(COLLIDE)),
+                              'names': st.one_of(st.lists(name, max_size=5), colliding, colliding),
                               't': st.integers(0, 5), 'c': st.integers(0, 8)})
   eng = st.fixed_dictionaries({'kind': st.just(1), 'ops': st.lists(op, min_size=1, max_size=12)})
+  return pure, eng
+
+
+def strategy(tier):
+  pure, eng = parts()
   # weights per 1000 (engine case ~100x the cost of a pure one; kept away from the ends of the range)
   table = [(487, pure), (26, eng), (487, pure)]
 
